@@ -48,4 +48,26 @@ theorem addAll_safe (P : Parser) (N : Node → Bool) (G : SchemaOk P.S) (hr : P.
   | error e => rw [h] at this; exact this
   | ok w => rw [h] at this; exact this
 
+/-- third instance: whatever the input, the walk fails only with ValueError or an internal error -/
+theorem nofail_frame (P : Parser) (N : Node → Bool) :
+    Frame P N (fun _ => True) (fun _ => True) (fun e => e ≠ .failed) false where
+  emit := by
+    intro w e _ _
+    unfold emit
+    cases hs : w.st.step P.S P.wsPre e with
+    | error err => exact step_nf P.S P.wsPre w.st e err hs
+    | ok res => trivial
+  nextMark := fun _ _ h => h
+  valueError := by decide
+  top := fun _ _ _ => by decide
+  lax := fun _ => by decide
+  rules := fun h => by cases h
+  types := fun _ _ _ _ => trivial
+
+theorem addAll_nofail (P : Parser) (ptag : String) (kids : List DNode) (w0 : WState) (e : Err)
+    (h : addAll P ptag kids false w0 = .error e) : e ≠ .failed := by
+  have := (walk_post (nofail_frame P (fun _ => true))).1 ptag kids false w0 trivial (listOk_lax kids)
+  rw [h] at this
+  exact this
+
 end PM.DomWalk
